@@ -216,6 +216,16 @@ pub fn arb_large_value(dups: bool) -> BoxedStrategy<RefValue> {
 	}
 }
 
+/// Rewrites every number spelling of a tree.
+pub fn map_numbers(v: RefValue, f: &dyn Fn(String) -> String) -> RefValue {
+	match v {
+		RefValue::Num(n) => RefValue::Num(f(n)),
+		RefValue::Arr(a) => RefValue::Arr(a.into_iter().map(|x| map_numbers(x, f)).collect()),
+		RefValue::Obj(o) => RefValue::Obj(o.into_iter().map(|(k, x)| (k, map_numbers(x, f))).collect()),
+		other => other,
+	}
+}
+
 /// The usual mix for document-level properties: mostly medium values, some large ones.
 pub fn arb_doc_value(cfg: ValueCfg) -> BoxedStrategy<RefValue> {
 	prop_oneof![6 => arb_value(cfg), 1 => arb_large_value(cfg.dup_keys)].boxed()
